@@ -148,6 +148,8 @@ class BuiltinsMixin:
             return m
         if isinstance(o, FuncV) and name == "__name__":
             return o.name
+        if o is None or type(o) in (int, float, bool, str, bytes, tuple):
+            self.raise_py("AttributeError", f"{type(o).__name__!r} object has no attribute {name!r}")
         raise Unsupported(f"attribute {name!r} of {o!r}")
 
     def obj_getattr_hook(self, o, name):
